@@ -647,7 +647,7 @@ func (e *storeEnv) verifyIndex(what string, n uint64) {
 // this run (the structural precondition of the known compaction-restart
 // defect), it is attributed to that finding, otherwise it is a violation.
 func (e *storeEnv) idxViol(class, format string, args ...interface{}) {
-	if e.r.Sched != nil && e.r.Sched.MaxLive("indexer") > e.nIndexes() {
+	if e.r.Sched != nil && e.r.Sched.MaxSameName("indexer") > 1 {
 		e.r.Finding(class, "C04:indexer-overlap-after-compaction", "two indexing goroutines ran concurrently on one index after CompactIndexes restarted it; then: "+format, args...)
 		e.r.EndRun()
 	}
